@@ -60,6 +60,12 @@ fn hist<W: WorldDriver>(m: &HashMap<String, String>) -> i32 {
     let len: usize = m.get("len").map(|s| s.parse().unwrap()).unwrap_or(120);
     let seed: u64 = m.get("seed").map(|s| s.parse().unwrap()).unwrap_or(1);
     let cfg = Cfg::new(intensity(m.get("intensity")));
+    if let Some(pf) = m.get("prefill") {
+        let mut it = pf.split(',');
+        let arch: u8 = it.next().and_then(|t| t.parse().ok()).expect("--prefill arch,k");
+        let k: u8 = it.next().and_then(|t| t.parse().ok()).expect("--prefill arch,k");
+        vh::run::PREFILL.with(|p| p.set(Some((arch, k))));
+    }
     if let (Some(h), Some(f)) = (m.get("dump-hash"), m.get("dump-out")) {
         let h = u64::from_str_radix(h, 16).expect("--dump-hash is hex");
         vh::run::DUMP.with(|d| *d.borrow_mut() = Some((h, f.clone())));
